@@ -9,7 +9,7 @@ from props import qtycommon as Q
 from props import c01, c03
 
 ID = "C04"
-COQ_TARGETS = ["Properties/C04.vo", "GenFacts/ResolutionFacts.vo"]
+COQ_TARGETS = ["Properties/C04.vo", "GenFacts/ResolutionFacts.vo", "GenFacts/UnitsSrcFacts.vo"]
 EXTRA_OBLIGATIONS = ["resolution_facts_true"]
 MODEL_TARGETS = ["Model/Qty.vo"]
 
